@@ -117,6 +117,16 @@ def main(argv):
     except RuntimeError as e:
         chk.violation({"property": PID, "broken": "driver run", "detail": str(e)}, no_input=True)
         return chk.finish()
+    # root reuse: the same tree built again in the root right after its disposal, before the executor dropped the cancelled tasks
+    again = list(asyncgen.AGAIN)
+    afail = []
+    for (prog, steps), lines, ag in zip(cases, impl, again):
+        if not ag or ag[0] != lines[0]:
+            afail.append({"program": asyncgen.sx_nodes(prog), "schedule": asyncgen.sx_steps(steps) + " then RootHandle::dispose and the same tree built again in the same root",
+                          "failures": [{"what": "the cancelled tasks of the disposed root disturbed the new boundaries (or a panic): the rebuilt tree does not show what a fresh one shows",
+                                        "fresh": lines[0], "rebuilt": ag[0] if ag else "(nothing)"}], "output": lines})
+    chk.obligation("oracle: after the final root disposal the same tree built again in the re-used root (before the executor drops the cancelled tasks) shows what a fresh tree shows (%d scenarios)" % len(cases),
+                   not afail, str(afail[:1]))
     model = None
     vlib.coq_make(["theories/Async/Suspense.vo"])
     try:
@@ -124,7 +134,7 @@ def main(argv):
     except RuntimeError as e:
         broken.append("model evaluation: " + str(e)[-500:])
         chk.obligation("model evaluation", False, str(e))
-    mism, orfail = [], []
+    mism, orfail = [], list(afail)
     for i, ((prog, steps), lines) in enumerate(zip(cases, impl)):
         key = asyncgen.sx_nodes(prog) + asyncgen.sx_steps(steps)
         fails = oracle(prog, steps, lines)
